@@ -448,6 +448,11 @@ class Sparsify(EnvironmentFilter):
             if self._action and 'action' in new:
                 new['action'] = self._make_sparse(new['action'],action_has_headers,'action')
 
+            if self._action and 'actions' in new and new['actions'] != interaction['actions']:
+                for target in ['rewards','feedbacks']:
+                    if callable(new.get(target)):
+                        new[target] = DiscreteReward(new['actions'],list(map(interaction[target],interaction['actions'])))
+
             yield new
 
     def _make_sparse(self, value, has_headers:bool, default_header:str) -> Optional[dict]:
